@@ -17,3 +17,185 @@ kproof! {
         kani::cover!(n == 19 && r == 19, "full slice");
     }
 }
+
+use crate::huffman_encoding::{HuffmanOriginalEncoding, TreeCodeType};
+
+fn any_tct() -> TreeCodeType {
+    let k: u8 = kani::any();
+    kani::assume(k <= 3);
+    match k { 0 => TreeCodeType::Code, 1 => TreeCodeType::Repeat, 2 => TreeCodeType::ZeroShort, _ => TreeCodeType::ZeroLong }
+}
+
+/// an RLE item that HuffmanOriginalEncoding::read can produce
+fn any_item() -> (TreeCodeType, u8) {
+    let t = any_tct();
+    let d: u8 = kani::any();
+    match t {
+        TreeCodeType::Code => kani::assume(d <= 15),
+        TreeCodeType::Repeat => kani::assume(d >= 3 && d <= 6),
+        TreeCodeType::ZeroShort => kani::assume(d >= 3 && d <= 10),
+        TreeCodeType::ZeroLong => kani::assume(d >= 11 && d <= 138),
+    }
+    (t, d)
+}
+fn item_span(i: &(TreeCodeType, u8)) -> usize { if i.0 == TreeCodeType::Code { 1 } else { i.1 as usize } }
+
+/// K02b: predict_ld_trees -> reconstruct_ld_trees mirror
+fn ld_mirror<const L: usize, const K: usize>() {
+    let pred: [u8; L] = kani::any();
+    let n: usize = kani::any();
+    kani::assume(n >= 1 && n <= K);
+    let mut items: Vec<(TreeCodeType, u8)> = Vec::new();
+    let mut total = 0usize;
+    let mut i = 0;
+    while i < K {
+        if i < n { let it = any_item(); total += item_span(&it); items.push(it); }
+        i += 1;
+    }
+    kani::assume(total >= 1 && total <= L);
+    let mut rec = Rec::new();
+    let r = predict_ld_trees(&mut rec, &pred[..total], &items[..]);
+    assert!(r.is_ok());
+    let back = reconstruct_ld_trees(&mut rec, &pred[..total]);
+    assert!(back.is_ok(), "reconstruction fails on data the predictor wrote");
+    let back = back.unwrap();
+    assert!(back.len() == n, "number of run-length items changed");
+    let mut i = 0;
+    while i < K {
+        if i < n { assert!(back[i].0 == items[i].0 && back[i].1 == items[i].1, "run-length item changed"); }
+        i += 1;
+    }
+    assert!(rec.fully_consumed());
+    kani::cover!(n == K && items[0].0 == TreeCodeType::ZeroLong, "long zero run first");
+    kani::cover!(n >= 2 && items[1].0 == TreeCodeType::Repeat && items[0].0 == TreeCodeType::ZeroShort, "code 16 after a zero run");
+    core::mem::forget(back); core::mem::forget(items);
+}
+kproof! { fn k02b_ld_mirror_14_3() { ld_mirror::<14, 3>(); } }
+kproof! { fn k02b_ld_mirror_24_4() { ld_mirror::<24, 4>(); } }
+
+/// deterministic stand-in for huffman_calc::calc_bit_lengths in the mirror lemma: both sides
+/// call it with equal arguments, so any function of (limit, argument length) that returns a vector of
+/// a plausible shape is a sound abstraction for the mirror property (not for C04/C09).
+pub static mut CBL_LIT: [u8; 8] = [0; 8];
+pub static mut CBL_LIT_N: usize = 0;
+pub static mut CBL_DIST_N: usize = 0;
+pub static mut CBL_TC: [u8; 19] = [0; 19];
+pub static mut CBL_TC_N: usize = 0;
+pub fn stub_calc_bit_lengths(_c: HufftreeBitCalc, sym_count: &[u16], _limit: usize) -> Vec<u8> {
+    unsafe {
+        if sym_count.len() == 19 {
+            let mut v = Vec::new();
+            let mut i = 0; while i < 19 { if i < CBL_TC_N { v.push(CBL_TC[i]); } i += 1; }
+            v
+        } else if sym_count.len() == crate::preflate_constants::DIST_CODE_COUNT {
+            vec![1u8; CBL_DIST_N]
+        } else {
+            vec![2u8; CBL_LIT_N]
+        }
+    }
+}
+
+kproof! {
+    /// K02c: predict_tree_for_block -> recreate_tree_for_block mirror for the header counts and the
+    /// code-length-alphabet part, calc_bit_lengths abstracted (see stub), <= 3 RLE items.
+    #[kani::stub(crate::huffman_calc::calc_bit_lengths, stub_calc_bit_lengths)]
+    fn k02c_tree_mirror() {
+        // shapes the length calculator can return
+        let lit_n: usize = kani::any(); let dist_n: usize = kani::any(); let tc_n: usize = kani::any();
+        kani::assume(lit_n >= 257 && lit_n <= 286 && dist_n >= 1 && dist_n <= 30 && tc_n >= 1 && tc_n <= 19);
+        unsafe { CBL_LIT_N = lit_n; CBL_DIST_N = dist_n; CBL_TC = kani::any(); CBL_TC_N = tc_n; }
+        // the original header: any counts, items summing to num_literals + num_dist
+        let hlit: usize = kani::any(); let hdist: usize = kani::any(); let hclen: usize = kani::any();
+        kani::assume(hlit >= 257 && hlit <= 288 && hdist >= 1 && hdist <= 32 && hclen >= 4 && hclen <= 19);
+        let a = any_item(); let b = any_item(); let c = any_item();
+        kani::assume(a.0 == TreeCodeType::ZeroLong && b.0 == TreeCodeType::ZeroLong);
+        kani::assume(item_span(&a) + item_span(&b) + item_span(&c) == hlit + hdist);
+        let code_lengths: [u8; 19] = kani::any();
+        let mut i = 0; while i < 19 { kani::assume(code_lengths[i] <= 7); i += 1; }
+        // symbols beyond HCLEN are zero in a header that was read from a stream
+        let mut i = 0; while i < 19 { if i >= hclen { kani::assume(code_lengths[crate::preflate_constants::TREE_CODE_ORDER_TABLE[i]] == 0); } i += 1; }
+        let enc = HuffmanOriginalEncoding { lengths: vec![a, b, c], code_lengths, num_literals: hlit, num_dist: hdist, num_code_lengths: hclen };
+        let freq = TokenFrequency::default();
+        let mut rec = Rec::new();
+        let r = predict_tree_for_block(&enc, &freq, &mut rec, HufftreeBitCalc::Zlib);
+        assert!(r.is_ok());
+        let back = recreate_tree_for_block(&freq, &mut rec, HufftreeBitCalc::Zlib);
+        assert!(back.is_ok());
+        let back = back.unwrap();
+        assert!(back.num_literals == hlit && back.num_dist == hdist && back.num_code_lengths == hclen, "HLIT/HDIST/HCLEN changed");
+        assert!(back.lengths.len() == 3 && back.lengths[0] == a && back.lengths[1] == b && back.lengths[2] == c);
+        let mut i = 0; while i < 19 { assert!(back.code_lengths[i] == code_lengths[i], "code-length-alphabet lengths changed"); i += 1; }
+        assert!(rec.fully_consumed());
+        kani::cover!(hclen == 19 && tc_n == 11, "short predicted code-length vector, full HCLEN");
+        kani::cover!(hlit != lit_n && hdist != dist_n, "both counts mispredicted");
+        core::mem::forget(back); core::mem::forget(enc);
+    }
+}
+
+use preflate_ref::tree_predictor::verif_export as refx;
+kproof! {
+    /// K04e: run-length prediction kernels agree with the reference build on every slice
+    fn k04e_rle_predictor_equiv() {
+        const L: usize = 12;
+        let sym: [u8; L] = kani::any();
+        let n: usize = kani::any();
+        kani::assume(n >= 1 && n <= L);
+        let has_prev: bool = kani::any();
+        let prev: u8 = kani::any();
+        assert!(super::verif_export::code_type(&sym[..n], has_prev, prev) == refx::code_type(&sym[..n], has_prev, prev), "predict_code_type differs from the reference build");
+        let ty: u8 = kani::any();
+        kani::assume(ty <= 3);
+        assert!(super::verif_export::code_data(&sym[..n], ty) == refx::code_data(&sym[..n], ty), "predict_code_data differs from the reference build");
+        kani::cover!(n == 12 && sym[0] == 0 && super::verif_export::code_type(&sym[..n], has_prev, prev) == TreeCodeType::ZeroLong as u32, "long zero run predicted");
+    }
+}
+kproof! {
+    /// K04e': long runs (concrete lengths up to 140) — thresholds 3/6/10/11/138
+    fn k04e_rle_long_runs() {
+        let z = [0u8; 140];
+        let s = [5u8; 140];
+        let n: usize = kani::any();
+        kani::assume(n >= 1 && n <= 140);
+        let ty: u8 = kani::any();
+        kani::assume(ty <= 3);
+        assert!(super::verif_export::code_data(&z[..n], ty) == refx::code_data(&z[..n], ty));
+        assert!(super::verif_export::code_data(&s[..n], ty) == refx::code_data(&s[..n], ty));
+        assert!(super::verif_export::code_type(&z[..n], false, 0) == refx::code_type(&z[..n], false, 0));
+        assert!(super::verif_export::code_type(&s[..n], true, 5) == refx::code_type(&s[..n], true, 5));
+        kani::cover!(n == 139, "longer than 138");
+    }
+}
+kproof! {
+    /// K04e'': calc_tc_lengths_without_trailing_zeros and the correction ops of predict_ld_trees
+    fn k04e_ld_ops_equiv() {
+        let tcl: [u8; 19] = kani::any();
+        assert!(super::verif_export::tc_len(&tcl) == refx::tc_len(&tcl));
+        const L: usize = 10;
+        let pred: [u8; L] = kani::any();
+        let kinds: [u8; 2] = kani::any();
+        let data: [u8; 2] = kani::any();
+        let n: usize = kani::any();
+        kani::assume(n >= 1 && n <= 2);
+        let mut total = 0usize;
+        let mut i = 0;
+        while i < 2 {
+            if i < n {
+                kani::assume(kinds[i] <= 3);
+                match kinds[i] { 0 => kani::assume(data[i] <= 15), 1 => kani::assume(data[i] >= 3 && data[i] <= 6), 2 => kani::assume(data[i] >= 3 && data[i] <= 10), _ => kani::assume(data[i] >= 11) }
+                total += if kinds[i] == 0 { 1 } else { data[i] as usize };
+            }
+            i += 1;
+        }
+        kani::assume(total >= 1 && total <= L);
+        let a = super::verif_export::ld_ops(&pred[..total], &kinds, &data, n);
+        let b = refx::ld_ops(&pred[..total], &kinds, &data, n);
+        assert!(a.n == b.n, "number of corrections differs from the reference build");
+        let mut i = 0;
+        while i < 8 { if i < a.n { assert!(a.kind[i] == b.kind[i] && a.ctx[i] == b.ctx[i] && a.val[i] == b.val[i], "tree correction differs from the reference build"); } i += 1; }
+        let fa = super::verif_export::codetree_freq(&kinds, &data, n);
+        let fb = refx::codetree_freq(&kinds, &data, n);
+        let mut i = 0;
+        while i < 19 { assert!(fa[i] == fb[i]); i += 1; }
+        kani::cover!(n == 2 && kinds[0] == 2 && kinds[1] == 1, "zero run then repeat");
+    }
+}
